@@ -316,7 +316,22 @@ func (client *client) writeLoop() {
 	for {
 		select {
 		case <-client.close:
-			return
+			// select picks at random when both channels are ready: a failing CONNACK or the DISCONNECT of setError
+			// that was queued right before the close is still owed to the peer
+			for {
+				select {
+				case packet := <-client.out:
+					switch packet.(type) {
+					case *packets.Connack, *packets.Disconnect:
+						if err = client.writePacket(packet); err != nil {
+							return
+						}
+						srv.statsManager.packetSent(packet, client.opts.ClientID)
+					}
+				default:
+					return
+				}
+			}
 		case packet := <-client.out:
 			switch p := packet.(type) {
 			case *packets.Publish:
